@@ -11,7 +11,7 @@ two-sided identity, (4) commutativity and associativity on the partials.
 import functools
 import json
 
-from .. import env, observe as O, refmodel as R, spec as S
+from .. import batch as B, env, observe as O, refmodel as R, spec as S
 from . import common as C
 from ..history import permute_keys
 
@@ -94,6 +94,21 @@ def run_case(i, rng, tier):
     stream = S.gen_stream(rng, sp, n, o)
     if unit:
         stream = [(r, 1.0) for r, _ in stream]
+    vec = i % 4 == 1 and not unit and S.has_quantity(sp)
+    if vec:
+        # some partials will be filled by fill.numpy: keep the data inside the domain where vectorised and row-wise
+        # filling are specified to agree (C03: non-negative weights; string categories; the Sum/NaN known finding aside)
+        sum_fields = {nd["f"] for _, nd in S.walk(sp) if nd["k"] == "Sum"}
+        clean = []
+        for r, w in stream:
+            r = dict(r)
+            if r["c"] is None or isinstance(r["c"], float):
+                r["c"] = "NaN"
+            for f in sum_fields:
+                if r[f] != r[f]:
+                    r[f] = 0.5
+            clean.append((r, float(w) if (w == w and w > 0) else 0.0))
+        stream = clean
     k = rng.randint(1, 5)
     cuts = sorted(rng.randint(0, n) for _ in range(k - 1))
     if i % 3 == 0 and k >= 2:
@@ -110,12 +125,17 @@ def run_case(i, rng, tier):
     sets = {"kinds": S.kinds_in(sp), "root_kind": {sp["k"]}, "schedule_shape": {repr(sched) if k <= 3 else "k=%d" % k}}
     scale = O.scale_of(stream)
 
+    def obs(x):
+        # vectorised fills legitimately create sparse bins / categories of zero weight (C03): compare modulo those
+        return O.drop_zero_sparse(O.observe(x)) if vec else O.observe(x)
+
+    norm = O.drop_zero_sparse if vec else None
     whole = C.fill_all(S.build(sp), stream)
-    whole_obs = O.observe(whole)
+    whole_obs = obs(whole)
 
     # zero() of a filled tree is the model of the empty multiset
     z = whole.zero()
-    okz, dz, _, _ = R.match(sp, [], O.observe(z), 1.0)
+    okz, dz, _, _ = R.match(sp, [], obs(z), 1.0, norm=norm)
     counters["zero_checked"] = 1
     if not okz:
         failures.append(C.fail(None, "zero() of a filled tree is not the empty aggregator: %s" % C.fmt_diff(dz), **wit))
@@ -131,6 +151,11 @@ def run_case(i, rng, tier):
         if unit:
             p = functools.reduce(defs.increment, [r for r, _ in ch], whole.zero())
             counters["partials_via_increment"] = counters.get("partials_via_increment", 0) + 1
+        elif vec and mode in (1, 2):
+            p = S.build(sp)
+            bat = B.Batch(B.columns([r for r, _ in ch]), "dict")
+            p.fill.numpy(bat.data, B.weights_array([w for _, w in ch]))
+            counters["partials_vectorised"] = counters.get("partials_vectorised", 0) + 1
         elif mode == 0:
             p = C.fill_all(whole.zero(), ch)
         elif mode == 3 and has_keys:
@@ -154,14 +179,14 @@ def run_case(i, rng, tier):
         b, sb = reduce_sched(s[1])
         c = a + b
         union = sa + sb
-        ok, d, namb, inc = R.match(sp, union, O.observe(c), O.scale_of(union) if union else 1.0)
+        ok, d, namb, inc = R.match(sp, union, obs(c), O.scale_of(union) if union else 1.0, norm=norm)
         counters["ghost_checks_on_partials"] = counters.get("ghost_checks_on_partials", 0) + 1
         if not ok and not inc:
             failures.append(C.fail(None, "partial %r + %r differs from the model of the union of its chunks: %s" % (s[0], s[1], C.fmt_diff(d)), **wit))
         return c, union
 
     red, _ = reduce_sched(sched)
-    red_obs = O.observe(red)
+    red_obs = obs(red)
     d = O.diff(whole_obs, red_obs, scale)
     counters["final_comparisons"] = 1
     if d:
@@ -170,7 +195,7 @@ def run_case(i, rng, tier):
     # left fold with the Spark helper
     if k >= 2:
         left = functools.reduce(defs.combine, partials)
-        d = O.diff(whole_obs, O.observe(left), scale)
+        d = O.diff(whole_obs, obs(left), scale)
         counters["combine_folds"] = 1
         if d:
             failures.append(C.fail(None, "functools.reduce(combine, partials) differs from the whole: %s" % C.fmt_diff(d), **wit))
@@ -181,7 +206,7 @@ def run_case(i, rng, tier):
             acc = whole.zero()
             for p_ in partials:
                 acc += p_
-            d = O.diff(whole_obs, O.observe(acc), scale)
+            d = O.diff(whole_obs, obs(acc), scale)
             counters["iadd_folds"] = 1
             if d:
                 failures.append(C.fail(None, "folding the partials with += into zero() differs from the whole: %s" % C.fmt_diff(d), **wit))
@@ -197,10 +222,10 @@ def run_case(i, rng, tier):
             for _, t_ in targets:
                 for r_, w_ in more:
                     t_.fill(r_, w_)
-            ref_obs = O.observe(whole)
+            ref_obs = obs(whole)
             sc2 = O.scale_of(stream + more)
             for nm_, t_ in targets[1:]:
-                d = O.diff(ref_obs, O.observe(t_), sc2)
+                d = O.diff(ref_obs, obs(t_), sc2)
                 counters["fill_after_reduce_checked"] = counters.get("fill_after_reduce_checked", 0) + 1
                 if d:
                     failures.append(C.fail(None, "after filling %d more records the %s result differs from the whole: %s" % (len(more), nm_, C.fmt_diff(d)), more=C.stream_json(more), **wit))
@@ -209,22 +234,22 @@ def run_case(i, rng, tier):
 
     # identity, commutativity, associativity on the partials
     a = partials[0]
-    a_obs = O.observe(a)
+    a_obs = obs(a)
     sa = O.scale_of(chunks[0]) if chunks[0] else 1.0
     for nm, v in (("h + zero", a + a.zero()), ("zero + h", a.zero() + a)):
-        d = O.diff(a_obs, O.observe(v), sa)
+        d = O.diff(a_obs, obs(v), sa)
         counters["identity_checked"] = counters.get("identity_checked", 0) + 1
         if d:
             failures.append(C.fail(None, "%s differs from h: %s" % (nm, C.fmt_diff(d)), law=nm, **wit))
     if k >= 2:
         b = partials[1]
-        d = O.diff(O.observe(a + b), O.observe(b + a), scale)
+        d = O.diff(obs(a + b), obs(b + a), scale)
         counters["commutativity_checked"] = 1
         if d:
             failures.append(C.fail(None, "a + b differs from b + a: %s" % C.fmt_diff(d), law="commutative", **wit))
     if k >= 3:
         b, c = partials[1], partials[2]
-        d = O.diff(O.observe((a + b) + c), O.observe(a + (b + c)), scale)
+        d = O.diff(obs((a + b) + c), obs(a + (b + c)), scale)
         counters["associativity_checked"] = 1
         if d:
             failures.append(C.fail(None, "(a+b)+c differs from a+(b+c): %s" % C.fmt_diff(d), law="associative", **wit))
@@ -246,7 +271,7 @@ def conclusive(agg):
     miss = [k for k in S.ALL_KINDS if k not in kinds]
     if miss:
         out.append("primitives never generated: %s" % ", ".join(miss))
-    for c in ("empty_chunks", "associativity_checked", "commutativity_checked", "partials_via_increment", "combine_folds", "partials_key_permuted", "partials_reloaded_sorted"):
+    for c in ("empty_chunks", "associativity_checked", "commutativity_checked", "partials_via_increment", "combine_folds", "partials_key_permuted", "partials_reloaded_sorted", "partials_vectorised"):
         if not agg.counters.get(c):
             out.append("never exercised: %s" % c)
     return out
